@@ -6,10 +6,11 @@ from harness.common import fwd, pseudo, VOID, AXES, rot_from_rotvec
 from harness import pipeline as PL, solver as S
 
 SPEC = {
-    "gen": ["Rotations", "GetHkl"],
+    "gen": ["Rotations", "GetHkl", "SolverLeaf"],
     "modules": ["DiffcalcProofs.Props.C01", "DiffcalcProofs.Props.C01Sample", "DiffcalcProofs.Props.C01Detector", "DiffcalcProofs.Props.C01Assembly",
-                "DiffcalcProofs.Props.C01Assembly2", "DiffcalcProofs.Props.C01Bridge"],
-    "theorems": {"DiffcalcProofs.Props.C01": [
+                "DiffcalcProofs.Props.C01Assembly2", "DiffcalcProofs.Props.C01Bridge", "DiffcalcProofs.Props.TieSolver"],
+    "theorems": {"DiffcalcProofs.Props.TieSolver": ["TieSolver.phiAndQaz_generated", "TieSolver.chiAndQaz_generated", "TieSolver.qazValue_generated"],
+        "DiffcalcProofs.Props.C01": [
         "C01.getPosition_guard", "C01.getPosition_pairs_virtualAngles", "C01.guard_forward_model", "C01.composition",
         "C01.detFromQaz_sound", "C01.threeSample_detector_sound", "C01.twoSampleAndReference_detector_sound"],
         "DiffcalcProofs.Props.C01Sample": [
